@@ -49,10 +49,11 @@ const KEYS: &[&str] = &["", "K", "MID_A", "名前", "k2"];
 const ATOMS: &[&str] = &["a", "n", "\\", "\n", "\\n", "é", "𝄞", " ", "ｱ"];
 const SJIS_ATOMS: &[&str] = &["a", "n", "\\", "\n", "\\n", "あ", " ", "ｱ"];
 
-fn gen_cfg(_prop: &str, _tier: Tier, run_seed: u64) -> Value {
+fn gen_cfg(_prop: &str, tier: Tier, run_seed: u64) -> Value {
     let mut r = Rng::sub(run_seed, "cfg");
+    let ops_hi = if tier == Tier::Thorough && r.chance(1, 4) { 200 } else { 60 };
     let swarm: Vec<u32> = (0..8).map(|_| *r.pick(&[0u32, 1, 1, 1, 2, 4])).collect();
-    json!({ "unicode": r.chance(1, 2), "big": r.chance(1, 2), "max_ops": r.range(8, 60), "swarm": swarm })
+    json!({ "unicode": r.chance(1, 2), "big": r.chance(1, 2), "max_ops": r.range(8, ops_hi), "swarm": swarm })
 }
 
 #[derive(Clone, Debug, PartialEq)]
